@@ -45,7 +45,7 @@ func (srv *Srv) NewConn(c net.Conn) {
 
 func (conn *Conn) close() {
 	verifPoint("close_enter", conn, nil)
-	conn.done <- true
+	close(conn.done)
 	conn.Srv.Lock()
 	delete(conn.Srv.conns, conn)
 	conn.Srv.Unlock()
